@@ -77,9 +77,10 @@ static void scenario_history(Src &s) {
       case 2: {
         if (kf) econf_freeFile(kf);
         kf = nullptr;
-        static const char *opts[6] = {"", "JOIN_SAME_ENTRIES=1", "PYTHON_STYLE=1;JOIN_SAME_ENTRIES=1", "ROOT_PREFIX=/x;ROOT_PREFIX=/y",
-                                      "PARSING_DIRS=/a:/b;PARSING_DIRS=/c", "CONFIG_DIRS=.d;CONFIG_DIRS=.e:.f"};
-        e = econf_newKeyFile_with_options(&kf, opts[s.below(6)]);
+        static const char *opts[9] = {"", "JOIN_SAME_ENTRIES=1", "PYTHON_STYLE=1;JOIN_SAME_ENTRIES=1", "ROOT_PREFIX=/x;ROOT_PREFIX=/y",
+                                      "PARSING_DIRS=/a:/b;PARSING_DIRS=/c", "CONFIG_DIRS=.d;CONFIG_DIRS=.e:.f", "CONFIG_DIRS=.d:.e;CONFIG_DIRS=",
+                                      "PARSING_DIRS=/a;PARSING_DIRS=", "ROOT_PREFIX=/x;ROOT_PREFIX="};
+        e = econf_newKeyFile_with_options(&kf, opts[s.below(9)]);
         log += "opt;";
         break;
       }
@@ -301,8 +302,8 @@ static void scenario_options(Src &s) {
   g_case.tag("option_strings");
   static const std::vector<std::string> items = {"JOIN_SAME_ENTRIES=1", "JOIN_SAME_ENTRIES=0", "PYTHON_STYLE=1", "PARSING_DIRS=/a:/b:/c", "PARSING_DIRS=/d",
                                                  "CONFIG_DIRS=.d:.conf.d", "CONFIG_DIRS=.x", "ROOT_PREFIX=/r1", "ROOT_PREFIX=/r2", "FOO=1", "UNKNOWN",
-                                                 "join_same_entries=1"};
-  int n = (int)s.below(7);
+                                                 "join_same_entries=1", "CONFIG_DIRS=", "PARSING_DIRS=", "ROOT_PREFIX=", "PYTHON_STYLE=0"};
+  int n = (int)s.below(8);
   std::string opt;
   std::set<std::string> seen;
   bool repeated = false, unknown = false;
@@ -382,7 +383,7 @@ int main(int argc, char **argv) {
   Harness h;
   h.property_id = "C20";
   h.run = run;
-  h.shrink_budget = 3000;
+  h.shrink_budget = 600;
   h.base = 40;
   h.per_size = 14;
   h.always_isolate = true;
